@@ -49,6 +49,23 @@ func c17Range(c *Ctx) {
 		if !ok || n == 0 {
 			return ivAny, false
 		}
+		// the cursor is an int32: "0 or cursor+1" keeps it non-negative only if it cannot grow without bound.  Every
+		// increment must therefore act on a value that is bounded at that point (below the partition count, or just
+		// reset) — assuming the invariant, evaluate the operand of each increment
+		assumed := func(string) (ival, bool) { return ival{lo: loZero, hi: hiPosInf}, true }
+		for _, f := range p.Fns {
+			if len(f.Params) != 3 {
+				continue
+			}
+			for _, s := range Info(f).Find(StoreTo(BinOpOf(token.ADD, FieldLoad(path), ConstInt(1)), path)) {
+				bo := s.In.(*ssa.Store).Val.(*ssa.BinOp)
+				eng := &intervalEngine{p: p, fn: f, n: f.Params[2], fieldInv: assumed}
+				iv := eng.eval(bo.X, nil)
+				if iv.hi == hiPosInf {
+					return ivAny, false // unbounded: wraps to negative values after 2^31 increments
+				}
+			}
+		}
 		return ival{lo: loZero, hi: hiPosInf}, true
 	}
 	for _, name := range []string{"hashPartitioner.Partition", "randomPartitioner.Partition", "roundRobinPartitioner.Partition"} {
